@@ -44,6 +44,7 @@ Step ==
           [] ev.a = "TrigRekeyIke" -> TrigRekeyIke(ev.s)
           [] ev.a = "TrigDeleteIke" -> TrigDeleteIke(ev.s)
           [] ev.a = "TrigDpd"      -> TrigDpd(ev.s)
+          [] ev.a = "TimerIdle"    -> TimerIdle(ev.s, ev.which)
           [] ev.a = "Retransmit"   -> Retransmit(ev.s)
           [] ev.a = "GiveUp"       -> GiveUp(ev.s)
           [] ev.a = "Deliver"      -> CtlDispatch(ev.m, ev.keep)
